@@ -27,15 +27,28 @@ SLASH = z3.StringVal('/')
 def new_store(it):
     st = it.st
     new_fs(it)
-    model = st.fresh_str('model_name')
     pid = st.fresh_val('pipeline_id')
-    ctx = st.alloc('ctxlike', model_name=SymS(model), pipeline_id=SymV(pid))
+    # the model name is a string or an Enum member whose *value* is the name (both are supported by _ensure_dir)
+    if st.choose([True, True], 'model-name-is-an-enum-member') == 0:
+        mn = SymS(st.fresh_str('model_name'))
+    else:
+        from pyvc.libmodels3 import IS_ENUM
+        from pyvc.interp import attr_fn
+        m = st.fresh_val('model_enum')
+        st.assume(z3.And(IS_ENUM(m), PyV.is_opq(m), PyV.is_str_(attr_fn('value')(m)), PyV.is_str_(attr_fn('name')(m))))
+        mn = SymV(m)
+    ctx = st.alloc('ctxlike', model_name=mn, pipeline_id=SymV(pid))
     return new_obj(it, STORE, ctx=ctx, artifact_dir=PathV(st.fresh_str('artifact_dir')))
 
 
 def store_dir(snap, store, st):
     ctx = snap.getf(store, 'ctx')
-    model = snap.getf(ctx, 'model_name').t
+    mn = snap.getf(ctx, 'model_name')
+    if isinstance(mn, SymS):
+        model = mn.t
+    else:
+        from pyvc.interp import attr_fn
+        model = PyV.s(attr_fn('value')(mn.t))          # the key is the model *name*: for an Enum member its value
     pid = STR_OF(T(snap.getf(ctx, 'pipeline_id'), st))
     return z3.Concat(snap.getf(store, 'artifact_dir').s, SLASH, model, SLASH, pid)
 
